@@ -2,6 +2,8 @@
 """Regenerates seeded/README.md from seeded/*/meta.json."""
 import json, os, glob, re
 V = os.path.dirname(os.path.dirname(os.path.abspath(__file__)))
+ANTICIPATED = {'C01-3', 'C03-3', 'C03-4', 'C11-3', 'C11-4', 'C14-3', 'C14-4', 'C05-3', 'C09-4', 'C04-3'}
+# wave 2 changes for which an obligation was added after reading the agent's summary, before the checks first ran on them
 rows = []
 for d in sorted(glob.glob(os.path.join(V, 'seeded', '*', 'meta.json'))):
     m = json.load(open(d))
@@ -27,6 +29,9 @@ for d in sorted(glob.glob(os.path.join(V, 'seeded', '*', 'meta.json'))):
         l = [x for x in v.get('lines', []) if x.startswith('VIOLATED')]
         ob = l[0].split()[1] if l else ''
         lines.append('%s%s' % (c, (' `%s`' % ob) if ob and v.get('exit') == 1 else (' (exit %s)' % v.get('exit'))))
+    wave = {1: 1, 2: 1, 3: 2, 4: 2, 5: 3, 6: 3}.get(int(name.split('-')[1]), 0)
+    if name in ANTICIPATED:
+        first_txt += ' (obligation added beforehand from the summary)'
     rows.append((name, m.get('property'), ', '.join(f.replace('omaha-client/src/', '') for f in files), need, m.get('confirmed'), first_txt, ', '.join(lines), m.get('caught_by') or []))
 out = ['# Seeded changes', '',
        'Each directory holds one change to google/omaha-client written by an independent sub-agent that was given only the text of',
@@ -37,6 +42,8 @@ out = ['# Seeded changes', '',
        '', '    git -C /repo apply /verif/seeded/<id>/patch.diff && ./check <Cnn>; git -C /repo checkout -- .', '',
        '(`tools/seed.py` does the confirmation and the runs; with `--in-worktree` it applies the change in the scratch worktree and',
        'points the checks at it through `VERIF_REPO`, so that several changes can be tested side by side.)', '',
+       'Waves: -1/-2 first wave, -3/-4 second wave (agents told which ideas were taken), -5/-6 third wave (checks run on them',
+       'before anything about them was looked at).', '',
        '| change | property | touches | confirmed | first run of the checks | now: obligation that fires |',
        '|---|---|---|---|---|---|']
 for r in rows:
